@@ -67,7 +67,8 @@ struct Scenario {
   std::string builddir;
   std::vector<DyndepFile> dyndeps;
   bool subninja = false;                // second half of the statements lives in sub.ninja
-  int ncycle_extra = 0;
+  int cycle_kind = -1;                  // -1 none; 0 manifest input, 1 dyndep source file, 2 dyndep produced mid-build, 3 discovered dependency
+  std::string cycle_note;
 
   // ---- queries (all over the structured truth)
   int Producer(const std::string& path) const;          // statement id or -1 (includes dyndep-added outputs)
@@ -93,6 +94,7 @@ struct GenParams {
   uint32_t features = F_ALL & ~(F_HOSTILE_NAMES | F_HIDDEN_NOPATH | F_SUBNINJA);
   int max_stmts = 10;
   int max_sources = 5;
+  bool cycles = false;       // C17: close a dependency cycle in some scenarios
 };
 Scenario GenerateScenario(Tape& t, int stream, const GenParams& gp);
 
